@@ -209,13 +209,12 @@ func (f *Fn) UnderCondArmAfter(l Loc, arm bool, after Matcher, substrs ...string
 		if !all {
 			continue
 		}
-		dominated := false
-		for _, a := range as {
-			if a.Blk == b || f.BlockDom(a.Blk, b) {
-				dominated = true
-			}
+		// the set of `after` events dominates the test: no path from entry reaches it avoiding all of them
+		condLoc := Loc{Blk: b, Idx: len(b.Nodes) - 1, Seq: 1 << 29, Node: c}
+		if len(as) == 0 {
+			continue
 		}
-		if !dominated {
+		if pth, _ := f.search(nil, []Loc{condLoc}, as); pth != nil {
 			continue
 		}
 		s := b.Succs[0]
